@@ -576,6 +576,48 @@ class Item:
             i += 1
         self.log.append({"kind": "drop-attrs", "count": n, "why": why or "attributes of derive helper crates"})
 
+    def formats(self, expect, fn="ext_format"):
+        """`format!(FMT, a, b)` ==> `ext_format(FMT, (a, b,))`: the format string literal and the argument
+        expressions are kept (still evaluated, so their obligations remain); the rendering itself is an
+        uninterpreted function of (format string, arguments)."""
+        n = 0
+        i = 0
+        while i < len(self.toks) - 2:
+            t = self.toks[i]
+            if t.s == "format" and self.toks[i + 1].s == "!" and self.toks[i + 2].s == "(" and t.line != 0:
+                c = match_close(self.toks, i + 2)
+                parts = []
+                cur = []
+                d = 0
+                for q in range(i + 3, c):
+                    x = self.toks[q].s
+                    if x in OPEN:
+                        d += 1
+                    elif x in CLOSE:
+                        d -= 1
+                    if x == "," and d == 0:
+                        parts.append(cur)
+                        cur = []
+                    else:
+                        cur.append(self.toks[q])
+                if cur:
+                    parts.append(cur)
+                fmt = render(parts[0]).strip()
+                rest = [render(p_).strip() for p_ in parts[1:]]
+                new = tokenize("%s(%s, (%s))" % (fn, fmt, "".join(r + ", " for r in rest)))
+                for z in new:
+                    z.line = t.line
+                new[0].ws = t.ws
+                self.toks[i:c + 1] = new
+                n += 1
+                i += len(new)
+                continue
+            i += 1
+        if expect >= 0 and n != expect:
+            raise LostAnchor("formats: found %d format! calls in %s, expected %d" % (n, self.path, expect))
+        self.log.append({"kind": "sink", "what": "formats", "count": n,
+                         "why": "string rendering is an uninterpreted function of the format literal and the argument values"})
+
     def closure_annotate(self, anchor_src, nth, params_src, spec_src, why=""):
         """`CALL(|p| BODY)` -> `CALL(|PARAMS| -> SPEC { BODY })`: the anchor is the call prefix up to and
         including the opening `(` and the closure's `|...|` parameter list; the body is NOT part of the anchor
